@@ -209,11 +209,7 @@ func (e *Exec) valName(f *frame, v ssa.Value) string {
 func (e *Exec) bind(f *frame, v ssa.Value, val Val) {
 	if val.T != "" && val.Ty != nil && val.Ty.K != KTuple && !isAtom(val.T) {
 		e.ensureSortDecl(val.Ty)
-		name := e.valName(f, v)
-		if e.S.declared[name] {
-			name = e.S.freshName(name)
-		}
-		val.T = e.S.define(name, val.Ty.Sort(), val.T)
+		val.T = e.defOrInline(e.valName(f, v), val.Ty.Sort(), val.T)
 	}
 	f.vals[v] = val
 }
@@ -237,7 +233,7 @@ func (e *Exec) freshVal(st *State, hint string, t types.Type) Val {
 	n := e.S.declare(e.S.freshName(hint), ty.Sort())
 	v := Val{T: n, Ty: ty}
 	if inv := e.typeInv(st, v); inv != "true" {
-		e.S.assume(inv)
+		e.assume(inv)
 	}
 	return v
 }
@@ -327,9 +323,7 @@ func (e *Exec) runFunc(fn *ssa.Function, args []Val, freeVars []Val, st0 *State,
 				continue // unreachable
 			}
 			st = e.merge(conds, states)
-			if !isAtom(st.Reach) {
-				st.Reach = e.S.define(e.S.freshName(fmt.Sprintf("%sreach.b%d", f.prefix, b.Index)), "Bool", st.Reach)
-			}
+			st.Reach = e.defOrInline(e.S.freshName(fmt.Sprintf("%sreach.b%d", f.prefix, b.Index)), "Bool", st.Reach)
 		}
 		f.in[b] = st
 		// phis
@@ -410,10 +404,8 @@ func (e *Exec) runFunc(fn *ssa.Function, args []Val, freeVars []Val, st0 *State,
 			}
 			v = Val{T: ite(f.rets[i].cond, o.T, v.T), Ty: v.Ty, Clo: clo}
 		}
-		if !isAtom(v.T) {
-			e.ensureSortDecl(v.Ty)
-			v.T = e.S.define(e.S.freshName(f.prefix+"ret"), v.Ty.Sort(), v.T)
-		}
+		e.ensureSortDecl(v.Ty)
+		v.T = e.defOrInline(e.S.freshName(f.prefix+"ret"), v.Ty.Sort(), v.T)
 		rets[j] = v
 	}
 	return rets, out
@@ -452,10 +444,11 @@ func (e *Exec) cutLoop(f *frame, li *loopInfo, st *State) {
 	if e.loopWrites(f, li) {
 		e.havocAll(st, nil)
 	} else {
-		for _, h := range e.loopHeapWrites(f, li, st) {
+		hs := e.loopHeapWrites(f, li, st)
+		e.bumpTop(st)
+		for _, h := range hs {
 			e.havoc(st, h)
 		}
-		e.bumpTop(st)
 	}
 	for _, ins := range li.header.Instrs {
 		phi, ok := ins.(*ssa.Phi)
@@ -510,6 +503,14 @@ func (e *Exec) loopInvariants(f *frame, li *loopInfo) []Clause {
 		}
 		if phi.Comment == "rangeindex" {
 			invs = append(invs, Clause{ID: "auto_idx", E: &EBin{Op: ">=", X: &EIdent{Name: "rangeindex"}, Y: &EUn{Op: "-", X: &EInt{V: "1"}}}, Src: "rangeindex >= -1"})
+		}
+	}
+	// package invariants are loop invariants of every loop of the package's functions
+	if f.mode == "top" && f.fn.Pkg != nil && !(f.fn.Name() == "init" && f.fn.Signature.Recv() == nil) {
+		for _, iv := range e.W.PkgInv[f.fn.Pkg.Pkg.Path()] {
+			c := iv.Clause
+			c.ID = "pkginv_" + c.ID
+			invs = append(invs, c)
 		}
 	}
 	if f.con != nil {
